@@ -24,6 +24,7 @@ import (
 	"verif/mc/core"
 	"verif/mc/gocheck"
 	"verif/mc/pipe"
+	"verif/mc/seamctl"
 )
 
 const modPath = "x.io/test"
@@ -270,6 +271,13 @@ type LocalStruct struct {
 func ptr[T any](v T) *T { return &v }
 `
 
+func seamImport() string {
+	if seamctl.Available() {
+		return "\t\"github.com/octohelm/gengo/pkg/zzseam\"\n"
+	}
+	return ""
+}
+
 func q(expr, qual string) string { return strings.ReplaceAll(expr, "$L.", qual) }
 
 type rendered struct {
@@ -308,7 +316,7 @@ func checkVals(c *core.Ctx, vals []Val) {
 	sum, _ := os.ReadFile(core.RepoDir() + "/go.sum")
 	// program A
 	var a strings.Builder
-	a.WriteString("package main\n\nimport (\n\t\"bytes\"\n\t\"encoding/json\"\n\t\"fmt\"\n\t\"os\"\n\n\t\"github.com/octohelm/gengo/pkg/gengo\"\n\t\"github.com/octohelm/gengo/pkg/gengo/snippet\"\n\t\"github.com/octohelm/gengo/pkg/namer\"\n\t\"" + modPath + "/tgt\"\n\t\"" + modPath + "/vt\"\n\t\"" + modPath + "/vt2\"\n\tcvt \"" + modPath + "/clash/vt\"\n)\n\nvar _ tgt.Local\nvar _ vt.MyInt\nvar _ vt2.Other\nvar _ cvt.C\n\nfunc ptr[T any](v T) *T { return &v }\n\nvar values = []any{\n")
+	a.WriteString("package main\n\nimport (\n\t\"bytes\"\n\t\"encoding/json\"\n\t\"fmt\"\n\t\"os\"\n\n\t\"github.com/octohelm/gengo/pkg/gengo\"\n\t\"github.com/octohelm/gengo/pkg/gengo/snippet\"\n\t\"github.com/octohelm/gengo/pkg/namer\"\n\t\"" + modPath + "/tgt\"\n\t\"" + modPath + "/vt\"\n\t\"" + modPath + "/vt2\"\n\tcvt \"" + modPath + "/clash/vt\"\n" + seamImport() + ")\n\nvar _ tgt.Local\nvar _ vt.MyInt\nvar _ vt2.Other\nvar _ cvt.C\n\nfunc ptr[T any](v T) *T { return &v }\n\nvar values = []any{\n")
 	for _, v := range vals {
 		a.WriteString("\t" + q(v.Expr, "tgt.") + ",\n")
 	}
@@ -349,12 +357,21 @@ func renderSession(target string) session {
 
 func main() {
 	var out []session
-	for _, target := range []string{"` + modPath + `/tgt", "` + modPath + `/tgt", "` + modPath + `/vt", "` + modPath + `/tgt"} {
+	// with the map-order seam built in, the sessions run under different iteration policies
+	// (ascending, descending, -, rotated): the rendered texts must not depend on them
+	policies := []int{0, 1, 0, 2}
+	for i, target := range []string{"` + modPath + `/tgt", "` + modPath + `/tgt", "` + modPath + `/vt", "` + modPath + `/tgt"} {
+		setPolicy(policies[i])
 		out = append(out, renderSession(target))
 	}
 	_ = json.NewEncoder(os.Stdout).Encode(out)
 }
 `)
+	if seamctl.Available() {
+		a.WriteString("\nfunc setPolicy(p int) { zzseam.SetPolicy(p, nil) }\n")
+	} else {
+		a.WriteString("\nfunc setPolicy(p int) {}\n")
+	}
 	t := pipe.Tree{
 		"go.mod": gomod, "go.sum": string(sum),
 		"vt/vt.go": vtSource, "vt2/vt2.go": vt2Source, "clash/vt/vt.go": cvtSource, "tgt/tgt.go": tgtSource,
@@ -365,7 +382,13 @@ func main() {
 		c.Internal("%v", err)
 		return
 	}
-	out, err := goRun(dir, "./cmd/render")
+	var out []byte
+	var err error
+	if seamctl.Available() {
+		out, err = goRun(dir, "-overlay", core.Root()+"/mc/.overlay/seam.json", "./cmd/render")
+	} else {
+		out, err = goRun(dir, "./cmd/render")
+	}
 	if err != nil {
 		c.Internal("program A (rendering) failed: %v", err)
 		return
@@ -584,6 +607,7 @@ func classify(v Val, text string) string { return "" }
 func run(c *core.Ctx) {
 	vals := values(c.Thorough())
 	c.Bound("values", len(vals))
+	c.Bound("seam_available", seamctl.Available())
 	var st []string
 	for _, s := range scalars {
 		st = append(st, s.typ)
@@ -611,7 +635,7 @@ func replay(c *core.Ctx, raw json.RawMessage) {
 func init() {
 	core.Register(&core.Prop{
 		ID: "C10", Level: "model_checking", Run: run, Replay: replay, Shards: 4,
-		Rule:        "value model: every listed boundary value of every scalar type (bool, all int/uint kinds incl. uintptr, runes, float32/64 edge values, strings with quotes/newlines/backquotes/non-UTF-8/NUL), named scalars of two foreign packages and of the target package, a one-level pointer to each of them (and nil pointers); for 9 element types: nil/empty/1/3-element slices, arrays, pointers, pointers to slices, maps under 6 key types (string, int, bool, named string, array, struct) incl. two insertion orders of the same map; structs with zero and non-zero members of every field kind (pointer to zero struct, zero struct as map value / slice element, embedded, anonymous, cross-package); depth-2 containers. Each is rendered by snippet.Value in a compiled program, type-checked as `var got T = <text>` in the target package and compared at run time with the original (nil == empty); same text when rendered twice and for both insertion orders; the whole list is rendered in 4 sessions (files) of one process - same target, same target again, another target, the first target again - and sessions for the same target must agree in texts and registered imports. Non-trivial = composite/pointer values; states = distinct type shapes",
+		Rule:        "value model: every listed boundary value of every scalar type (bool, all int/uint kinds incl. uintptr, runes, float32/64 edge values, strings with quotes/newlines/backquotes/non-UTF-8/NUL), named scalars of two foreign packages and of the target package, a one-level pointer to each of them (and nil pointers); for 9 element types: nil/empty/1/3-element slices, arrays, pointers, pointers to slices, maps under 6 key types (string, int, bool, named string, array, struct) incl. two insertion orders of the same map; structs with zero and non-zero members of every field kind (pointer to zero struct, zero struct as map value / slice element, embedded, anonymous, cross-package); depth-2 containers. Each is rendered by snippet.Value in a compiled program, type-checked as `var got T = <text>` in the target package and compared at run time with the original (nil == empty); same text when rendered twice and for both insertion orders; the whole list is rendered in 4 sessions (files) of one process - same target, same target again, another target, the first target again - and sessions for the same target must agree in texts and registered imports; built with the map-order seam the sessions run under ascending / descending / rotated iteration of every map (reflect.MapKeys included). Non-trivial = composite/pointer values; states = distinct type shapes",
 		Assumptions: []string{"NaN/Inf, complex numbers, pointer map keys, func/chan/interface-typed members and unexported fields are outside the stated domain"},
 	})
 }
